@@ -1,6 +1,8 @@
 """C13 planar subdivision bookkeeping (partly decided)."""
 from rules import sweeprules, pirules, fillrules
 
+from rules import looprules
+
 LEVEL = 'other'
 EXPLANATION = __doc__
 
@@ -15,3 +17,4 @@ def run(ctx, rep):
     sweeprules.check_loop(ctx, rep)
     sweeprules.check_break(ctx, rep)
     sweeprules.check_comparator(ctx, rep)
+    looprules.check_loops(ctx, rep)
